@@ -254,3 +254,26 @@ func H_SELF_atomic() {
 	verifAssert(verifRaces() == 0, "atomic operations do not race")
 	verifReach("end")
 }
+
+var hSelfCounter int
+
+// package-level state of the package under test starts fresh on every explored path; sync.Map and
+// atomic.Pointer run as their real code (unsafe.Pointer round trips to the same pointer type only)
+func H_SELF_syncmap_and_globals() {
+	verifAssert(hSelfCounter == 0, "package-level variables start from their initial value on every path")
+	hSelfCounter += 1 + nondetIntRange(0, 2)
+	var m sync.Map
+	k := hBytesStr(1)
+	_, had := m.Load(k)
+	m.Store(k, 1)
+	m.Store("zz", 2)
+	v, ok := m.Load(k)
+	act, loaded := m.LoadOrStore("zz", 3)
+	m.Delete(k)
+	_, ok2 := m.Load(k)
+	var p atomic.Pointer[int]
+	y := 5
+	old := p.Swap(&y)
+	verifObserve("syncmap", had, v, ok, act, loaded, ok2, old == nil, *p.Load())
+	verifReach("end")
+}
